@@ -33,6 +33,13 @@
     after it, outside a class: exactly one `on_variable` whose type is the chain the declarator
     denotes over the given base type (any non-function type), for chains of any length; the loop
     ends at `;` and goes on after `,` with the comma's location and no doc text.
+  * `C02_reference_chain` (`Theorems/RefChain.lean`): reference declarators — for EVERY sequence of
+    `*`, `const`, `volatile` after a type, followed by `&` or `&&` and a token that is not `(`,
+    `_parse_cv_ptr_or_fn` builds the lvalue (`&`) / rvalue (`&&`) reference to the chain the
+    operators denote and leaves that token in the stream.
+  * `C02_parameters` (`Theorems/ParamForm.lean`): parameter lists — `_parse_parameters` on `p1 , … , pn )` with
+    plain parameters `Ti ptr-ops name`, ANY number of them: the parameters in order, each with its
+    own name and the type ITS declarator denotes; nothing dropped by the `void` rule; no vararg.
 -/
 import CxxModel.Interp
 import CxxModel.Tables
@@ -41,6 +48,8 @@ import CxxModel.Theorems.PtrChain
 import CxxModel.Theorems.FundGroup
 import CxxModel.Theorems.PqName
 import CxxModel.Theorems.VarDecl
+import CxxModel.Theorems.RefChain
+import CxxModel.Theorems.ParamForm
 namespace Cxx
 
 /-- after `bounded`, the continuation runs on the outer buffer -/
@@ -169,6 +178,37 @@ theorem C02_declarator_variable (env : Env) (F D : Nat) (pt : DType) (location :
       w7.delivered = w.delivered + 1 ∧ w7.anon = w.anon ∧ w7.muted = false ∧ w7.nextId = w.nextId ∧
       w7.mainTok = w.mainTok :=
   declarator_variable env F D pt location doxygen ops x tm d1 w bmid bx b' blk rest hstack hk hmu hfa hpt hy ha htx hx hxv httm htm hF
+
+end
+
+section
+open P
+
+theorem C02_reference_chain (env : Env) (rec : Core) (nf : Bool) (ops : List Tok) (d d1 : DType) (F : Nat) (w : World)
+    (bmid bamp b' : Buf) (amp term : Tok)
+    (hy : Yields env.cfg w.buf ops bmid) (ha : applyPtrOps d (ops.map (·.type)) = some d1) (hnr : isRefLike d1 = false)
+    (htamp : tokenEofOk env.cfg bmid = .ok (some amp, bamp)) (hamp : amp.type = "&" ∨ amp.type = "DBL_AMP")
+    (htok : tokenEofOk env.cfg bamp = .ok (some term, b')) (hterm : term.type ≠ "(")
+    (hF : ops.length + 1 ≤ F) :
+    ∃ (w' : World) (t' : Tok), interp env (parseCvPtrOrFnStep F rec d nf) w = (w', .ok (refOf amp.type d1)) ∧
+      SameParse w w' ∧ tokenEofOk env.cfg w'.buf = .ok (some t', b') ∧ t'.type = term.type ∧ t'.value = term.value :=
+  cvPtr_chain_ref env rec nf ops d d1 F w bmid bamp b' amp term hy ha hnr htamp hamp htok hterm hF
+
+end
+
+section
+open P
+
+theorem C02_parameters (env : Env) (F D : Nat) (ps : List (PItem × DType × Tok)) (last : PItem × DType) (cp : Tok)
+    (w : World) (b' : Buf)
+    (hall : ∀ q ∈ ps, q.1.OK q.2.1 ∧ q.2.2.type = "," ∧ q.2.2.value ≠ ")" ∧ q.1.pairs.length + q.1.ops.length + 2 ≤ F)
+    (hlast : last.1.OK last.2) (hlF : last.1.pairs.length + last.1.ops.length + 2 ≤ F) (hcp : cp.type = ")") (hcpv : cp.value = ")")
+    (hy : Yields env.cfg w.buf (ps.flatMap (fun q => q.1.toks ++ [q.2.2]) ++ (last.1.toks ++ [cp])) b') (hF : ps.length + 1 ≤ F) :
+    ∃ (w' : World),
+      interp env (parseParametersStep F (core F (D + 1 + 1 + 1)) true) w =
+        (w', .ok (ps.map (fun q => q.1.param q.2.1) ++ [last.1.param last.2], false, [])) ∧
+      SameButLog w w' ∧ w'.buf = b' :=
+  parseParameters_plain env F D ps last cp w b' hall hlast hlF hcp hcpv hy hF
 
 end
 
